@@ -75,9 +75,46 @@ def classify(step, pre_rows):
     return "C04:assign"
 
 
+class TooLong(Exception):
+    """the assignment ran for over a second (an array of a few rows and columns)"""
+
+
+def _alarm(signum, frame):
+    raise TooLong("assignment still running after 1 s")
+
+
 def do_assign(a, st, block):
+    import signal
+    old = signal.signal(signal.SIGALRM, _alarm)
+    signal.setitimer(signal.ITIMER_REAL, 0.3 if st.get("rows_as") else 20.0)
+    try:
+        _do_assign(a, st, block)
+    except TooLong:
+        STATE["too_long"] = STATE.get("too_long", 0) + 1
+        raise
+    finally:
+        signal.setitimer(signal.ITIMER_REAL, 0)
+        signal.signal(signal.SIGALRM, old)
+
+
+def _do_assign(a, st, block):
     form = st["form"]
     r0, r1, c0, c1 = st["r0"], st["r1"], st["c0"], st["c1"]
+    # the same rows spelled with omitted or negative bounds (resolved against the current height,
+    # as for str and list); the generator only asks for a spelling that names the same region
+    H = len(a)
+    how = st.get("rows_as")
+    if STATE.get("too_long", 0) >= 12 and not st.get("witness"):
+        how = None        # a dozen assignments that never finished are evidence enough for one run
+    if how == "open_stop" and r1 == H:
+        r1 = None
+    elif how == "open_start" and r0 == 0:
+        r0 = None
+    elif how == "open_both" and r0 == 0 and r1 == H:
+        r0 = r1 = None
+    elif how == "neg" and 0 <= r0 < H and r1 <= H:
+        r0 = r0 - H
+        r1 = None if r1 == H else r1 - H
     if form == "slice2d":
         a[r0:r1, c0:c1] = block
     elif form == "rowslice":
@@ -136,7 +173,7 @@ def _run_case(ctx, case):
         want = g.display()
         detail = {"step": k, "outcome_expected": outcome, "raised": repr(raised)[:120] if raised else None}
         ctx.count("outcome:" + outcome)
-        mech = "C04:assign"
+        mech = "C04:open-or-negative-row-bounds" if st.get("rows_as") else "C04:assign"
         if outcome == ERROR:
             mech = "C04:must-raise"
             ok = raised is not None and after == want
@@ -155,7 +192,7 @@ def _run_case(ctx, case):
             ok = after == want
             ctx.judge(ok, case, sig, "C04:empty-region", _show(want), _show(after), detail, False)
         else:
-            if not any(c for c in cells) and any(len(x) for x in before[r0:r1]):
+            if not st.get("rows_as") and not any(c for c in cells) and any(len(x) for x in before[r0:r1]):
                 mech = "C04:empty-row-keeps-old-content" if all(len(c) == 0 for c in cells) else mech
             ok = raised is None and after == want
             ctx.judge(ok, case, sig, mech, _show(want), _show(after), detail, nontrivial)
@@ -193,6 +230,18 @@ def _run_case(ctx, case):
                 raise
             except Exception as ex:  # noqa
                 ctx.judge(False, case, mech="C04:read-back", got=repr(ex), detail=[x0, x1, y0, y1])
+        if H:
+            # a row named from the end reads back like the same row named from the start
+            k = rr.randint(1, H)
+            try:
+                got = obs.cells(a[-k])
+                ref = obs.cells(a[H - k])
+                ctx.judge(got == ref, case, ("C04", "negrow", repr(want), k), "C04:negative-row-read",
+                          obs.show(ref), obs.show(got), [-k])
+            except obs.ObservationFailed:
+                raise
+            except Exception as ex:  # noqa
+                ctx.judge(False, case, mech="C04:negative-row-read", got=repr(ex), detail=[-k, H])
     if STATE["inv_bad"]:
         ctx.judge(False, case, mech="C04:row-wider-than-array", got=STATE["inv_bad"][:3])
         del STATE["inv_bad"][:]
@@ -276,8 +325,21 @@ def rand_step(rng, H, W):
         # a block that covers exactly the whole array
         form, r0, r1, c0, c1 = "slice2d", 0, H, 0, W
         block = [rand_row(rng, W) for _ in range(H)]
-    return {"form": form, "r0": r0, "r1": r1, "c0": c0, "c1": c1, "block": block,
-            "as_fsarray": rng.random() < .15 and not whole, "poke_block": rng.random() < .4}
+    st = {"form": form, "r0": r0, "r1": r1, "c0": c0, "c1": c1, "block": block,
+          "as_fsarray": rng.random() < .15 and not whole, "poke_block": rng.random() < .4}
+    if rng.random() < .12 and r1 <= H and r0 < r1:
+        # rows named with omitted / negative bounds; only where that names the same rows
+        ways = ["neg"] if r0 < H else []
+        if form not in ("introw", "int2d"):
+            if r1 == H:
+                ways.append("open_stop")
+            if r0 == 0:
+                ways.append("open_start")
+            if r0 == 0 and r1 == H:
+                ways.append("open_both")
+        if ways:
+            st["rows_as"] = rng.choice(ways)
+    return st
 
 
 def run(ctx):
